@@ -136,6 +136,17 @@ fn observe(b: &Board, m: &mut Map<String, Value>) {
     m.insert("len".into(), json!(MoveGen::new_legal(b).len()));
 }
 
+/// The projected state only (for boards that are not positions, e.g. two kings of one colour during an edit).
+fn observe_light(b: &Board, m: &mut Map<String, Value>) {
+    let p = proj(b);
+    m.insert("sq".into(), json!(sq_string(&p.sq)));
+    m.insert("stm".into(), json!((p.stm as char).to_string()));
+    m.insert("cr".into(), json!(cr_list(p.cr)));
+    m.insert("ep_raw".into(), json!(b.en_passant().map(|s| s.to_index() as i64).unwrap_or(-1)));
+    m.insert("hash".into(), json!(b.get_hash().to_string()));
+    m.insert("light".into(), json!(true));
+}
+
 fn interesting(b: &Board, m: ChessMove) -> bool {
     let cap = b.piece_on(m.get_dest()).is_some();
     let pawn = b.piece_on(m.get_source()) == Some(Piece::Pawn);
@@ -267,6 +278,57 @@ fn board_chunk(rng: &mut Rng, events: usize, out: &mut dyn Write) {
                             }
                             writeln!(out, "{}", Value::Object(ev)).unwrap();
                             n += 1;
+                        }
+                        continue;
+                    }
+                    // one edit in ten relocates a king: the new king is set first, the old one cleared afterwards
+                    if rng.chance(1, 10) {
+                        let c = if rng.chance(1, 2) { Color::White } else { Color::Black };
+                        let old = b.king_square(c);
+                        let other = b.king_square(!c);
+                        let free: Vec<usize> = (0..64usize)
+                            .filter(|i| pj.sq[*i] == b'.' && (get_king_moves(other) & BitBoard::from_square(Square::new(*i as u8))) == EMPTY)
+                            .collect();
+                        if free.is_empty() {
+                            continue;
+                        }
+                        let to = Square::new(free[rng.below(free.len())] as u8);
+                        let kl = if c == Color::White { b'K' } else { b'k' };
+                        let r1 = std::panic::catch_unwind(|| b.set_piece(Piece::King, c, to));
+                        let r1 = match r1 { Ok(x) => x, Err(_) => continue };
+                        ev.insert("event".into(), json!("Edit"));
+                        ev.insert("esq".into(), json!(to.to_index()));
+                        ev.insert("man".into(), json!((kl as char).to_string()));
+                        ev.insert("ok".into(), json!(r1.is_some()));
+                        if let Some(nb) = r1 {
+                            b = nb;
+                        }
+                        observe_light(&b, &mut ev);
+                        writeln!(out, "{}", Value::Object(ev)).unwrap();
+                        n += 1;
+                        if r1.is_none() {
+                            continue;
+                        }
+                        let mut ev = Map::new();
+                        let r2 = b.clear_square(old);
+                        ev.insert("event".into(), json!("Edit"));
+                        ev.insert("esq".into(), json!(old.to_index()));
+                        ev.insert("man".into(), json!("."));
+                        ev.insert("ok".into(), json!(r2.is_some()));
+                        match r2 {
+                            Some(nb) => {
+                                b = nb;
+                                observe(&b, &mut ev);
+                                writeln!(out, "{}", Value::Object(ev)).unwrap();
+                                n += 1;
+                            }
+                            None => {
+                                // two kings of one colour stay on the board: nothing more can be asked of this position
+                                observe_light(&b, &mut ev);
+                                writeln!(out, "{}", Value::Object(ev)).unwrap();
+                                n += 1;
+                                break;
+                            }
                         }
                         continue;
                     }
@@ -600,7 +662,17 @@ fn game_chunk(rng: &mut Rng, events: usize, out: &mut dyn Write, claims: bool) {
             } else if roll < p_illegal || ms.is_empty() && roll < p_move {
                 let r = rng.next();
                 let promos = [None, Some(Piece::Queen), Some(Piece::Knight), None, None];
-                let m = ChessMove::new(Square::new((r & 63) as u8), Square::new(((r >> 6) & 63) as u8), promos[((r >> 12) % 5) as usize]);
+                let mut m = ChessMove::new(Square::new((r & 63) as u8), Square::new(((r >> 6) & 63) as u8), promos[((r >> 12) % 5) as usize]);
+                // half of the time: a legal move's squares with a promotion piece that does not belong there (none on a
+                // promotion, queen / pawn / king on an ordinary move, pawn / king on a promotion)
+                if !ms.is_empty() && (r >> 20) % 2 == 0 {
+                    let lm = ms[((r >> 24) as usize) % ms.len()];
+                    let wrong = match lm.get_promotion() {
+                        Some(_) => [None, Some(Piece::Pawn), Some(Piece::King)][((r >> 40) % 3) as usize],
+                        None => [Some(Piece::Queen), Some(Piece::Pawn), Some(Piece::King), Some(Piece::Knight)][((r >> 40) % 4) as usize],
+                    };
+                    m = ChessMove::new(lm.get_source(), lm.get_dest(), wrong);
+                }
                 let ret = g.make_move(m);
                 if ret {
                     history.push(m);
